@@ -39,7 +39,7 @@ type Plan struct {
 
 type RF struct {
 	MinPING, MaxPING, MinCRYPTO, MaxCRYPTO, MinPADDING, MaxPADDING uint8
-	Length                                                        uint16
+	Length                                                         uint16
 }
 
 func (r RF) toQUIC() quic.QUICRandomFrames {
@@ -79,9 +79,10 @@ type Desc struct {
 	SrcCID      *int     `json:"src_cid,omitempty"`
 	DestCID     *int     `json:"dest_cid,omitempty"`
 	InitPN      *uint64  `json:"init_pn,omitempty"`
-	PNLen       *int     `json:"pn_len,omitempty"`  // single value
-	PNLens      []int    `json:"pn_lens,omitempty"` // list (overrides PNLen)
-	TokenMode   string   `json:"token,omitempty"`   // "" keep | none | len | prefix | store (explicit token = TokenPrefix)
+	PNLen       *int     `json:"pn_len,omitempty"`      // single value
+	PNLens      []int    `json:"pn_lens,omitempty"`     // list (overrides PNLen)
+	TokenMode   string   `json:"token,omitempty"`       // "" keep | none | len | prefix | store (explicit token = TokenPrefix)
+	TokenSpare  int      `json:"token_spare,omitempty"` // prefix mode: the caller's prefix slice has this much spare capacity (filled with 0xA5), as a sub-slice of a captured token has
 	TokenLen    int      `json:"token_len,omitempty"`
 	TokenPrefix []byte   `json:"token_prefix,omitempty"`
 	Builder     *Builder `json:"builder,omitempty"`
@@ -146,7 +147,7 @@ func (t TPDesc) ToTLS() tls.TransportParameter {
 // fixedTokenStore is an explicit TokenStore that hands out the same token for every connection.
 type fixedTokenStore struct{ data []byte }
 
-func (f fixedTokenStore) Pop(string) *quic.ClientToken { return quic.NewClientToken(f.data) }
+func (f fixedTokenStore) Pop(string) *quic.ClientToken  { return quic.NewClientToken(f.data) }
 func (f fixedTokenStore) Put(string, *quic.ClientToken) {}
 
 func items(fs []FrameItem) quic.QUICFrames {
@@ -200,7 +201,16 @@ func (d Desc) Build() (*quic.QUICSpec, error) {
 	case "len":
 		ips.TokenStore, ips.ClientTokenLength, ips.ClientTokenPrefix = nil, d.TokenLen, nil
 	case "prefix":
-		ips.TokenStore, ips.ClientTokenLength, ips.ClientTokenPrefix = nil, d.TokenLen, d.TokenPrefix
+		pre := d.TokenPrefix
+		if d.TokenSpare > 0 {
+			buf := make([]byte, len(d.TokenPrefix)+d.TokenSpare)
+			copy(buf, d.TokenPrefix)
+			for i := len(d.TokenPrefix); i < len(buf); i++ {
+				buf[i] = 0xA5
+			}
+			pre = buf[:len(d.TokenPrefix)]
+		}
+		ips.TokenStore, ips.ClientTokenLength, ips.ClientTokenPrefix = nil, d.TokenLen, pre
 	case "store":
 		ips.TokenStore, ips.ClientTokenLength, ips.ClientTokenPrefix = fixedTokenStore{d.TokenPrefix}, 0, nil
 	}
@@ -304,11 +314,11 @@ func GenRF(t *rapid.T, label string, withLength bool) RF {
 
 // Options bound the generated family.
 type Options struct {
-	Bases      []string // allowed bases
-	CHLen      func(d Desc) (lo, hi int) // bounds of the ClientHello length of a description (it varies per dial)
-	HeaderOnly bool // only header-level knobs (no builder edits)
-	SuppressAny bool // also suppress flow-control / stream-count parameters
-	BigPN       bool // also draw first packet numbers near and beyond 2^62-1
+	Bases       []string                  // allowed bases
+	CHLen       func(d Desc) (lo, hi int) // bounds of the ClientHello length of a description (it varies per dial)
+	HeaderOnly  bool                      // only header-level knobs (no builder edits)
+	SuppressAny bool                      // also suppress flow-control / stream-count parameters
+	BigPN       bool                      // also draw first packet numbers near and beyond 2^62-1
 }
 
 // Gen draws a derived spec description. chLen must return the ClientHello length of (base, extra) — needed to
